@@ -79,7 +79,7 @@ CLAIMS["C05"] = (
 
 CLAIMS["C06"] = (
     "Reader conformance as contracts against the 7z format: header primitives for all encodings (C17 contracts), SignatureHeader._read, PackInfo._read (pack position, sizes, Digests structure with one CRC per DEFINED digest, END marker position, prefix-sum pack positions, for every count - ghost cut offsets over the input bytes), SubstreamsInfo._read (loop invariants over all folders / substreams: sizes from the Size record with the remainder rule, folders without streams, digest hand-out between folder-level CRCs and the record with the running record index pinned), UnpackInfo._retrieve_coders_info, FilesInfo._read (record walk) with _read_name / _read_times / _read_attributes (member k gets the k-th stored value, undefined stays undefined), Header._read, SevenZipFile._real_get_contents (header parsed only after its CRC matched; members appended in header order and to their folder's list under their own index; a member's digest is present exactly when its OWN defined flag is set; password flag from every folder), _get_fileinfo_sizes, ArchiveFileList (ids), Worker.extract / extract_single (every folder with members gets exactly one decoding task at afterheader + pack position + packpositions[i]).",
-    'StreamsInfo.read is under contract (sections in format order, each reader chosen by the id just read, SubStreamsInfo parsed against the folders just read or defaulted from memory, own rejections only for an id that may not follow). Not under contract: Folder._read, UnpackInfo._read (outer part), PackInfo.retrieve (returns what PackInfo._read returns; the retrieve class methods of StreamsInfo / UnpackInfo / SubstreamsInfo / FilesInfo / Folder are under contract: they return the object they instantiate after one run of its reader), SevenZipDecompressor.__init__ (chain selection), FilesInfo._read_start_pos (observed: its assert compares bytes with an int). The exit clauses of SubstreamsInfo._read that restate the invariants over the whole section are drafted but not discharged (disabled, DESIGN.md 11). The folder/stream arithmetic of _real_get_contents is covered by per-iteration trace obligations, not by one inductive invariant. Two BOUNDED stand-ins (labelled bounded) exercise the junctions no contract covers: 3000 seeded MainStreamsInfo sections and 400 seeded whole archives written by an independent encoder / COPY-coder writer must be read back exactly as described. Codec libraries and third-party writers are assumed to follow their contracts. Genuine defects found and repaired: FX11-FX16, FX18, FX19, FX23 (folder CRC of a multi-member folder compared too early), FX28., FX30 (directory entries of archives that store no attributes were extracted as empty files). FilesInfo._mark_directories is not under contract (exercised by the bounded reference archives, which are drawn with and without attributes).',
+    'StreamsInfo.read is under contract (sections in format order, each reader chosen by the id just read, SubStreamsInfo parsed against the folders just read or defaulted from memory, own rejections only for an id that may not follow). Not under contract: Folder._read, UnpackInfo._read (outer part), the `return self` of PackInfo._read (PackInfo.retrieve returns what that reader returns - under contract; the retrieve class methods of StreamsInfo / UnpackInfo / SubstreamsInfo / FilesInfo / Folder are under contract: they return the object they instantiate after one run of its reader), SevenZipDecompressor.__init__ (chain selection), FilesInfo._read_start_pos (observed: its assert compares bytes with an int). The exit clauses of SubstreamsInfo._read that restate the invariants over the whole section are drafted but not discharged (disabled, DESIGN.md 11). The folder/stream arithmetic of _real_get_contents is covered by per-iteration trace obligations, not by one inductive invariant. Two BOUNDED stand-ins (labelled bounded) exercise the junctions no contract covers: 3000 seeded MainStreamsInfo sections and 400 seeded whole archives written by an independent encoder / COPY-coder writer must be read back exactly as described. Codec libraries and third-party writers are assumed to follow their contracts. Genuine defects found and repaired: FX11-FX16, FX18, FX19, FX23 (folder CRC of a multi-member folder compared too early), FX28., FX30 (directory entries of archives that store no attributes were extracted as empty files). FilesInfo._mark_directories is not under contract (exercised by the bounded reference archives, which are drawn with and without attributes).',
     'DESIGN.md 7 (C06), 11',
 )
 
